@@ -21,8 +21,8 @@ pub struct PwSpec {
     pub pool: Vec<B>,
 }
 
-pub const NKINDS: u8 = 9;
-pub const KIND_NAMES: [&str; 9] = [
+pub const NKINDS: u8 = 11;
+pub const KIND_NAMES: [&str; 11] = [
     "tag-Poly0",
     "Poly1",
     "Poly3",
@@ -32,6 +32,8 @@ pub const KIND_NAMES: [&str; 9] = [
     "composed: output of constrained_spline()",
     "composed: Piecewise<Log<Poly4>>::integral()",
     "composed: &f + &g",
+    "tag-Log<Poly0>",
+    "composed: -(linear()) / linear() * -2",
 ];
 
 impl PwSpec {
@@ -43,10 +45,10 @@ impl PwSpec {
             return (i + j) as f64;
         }
         let v = self.pool[(i * 3 + j) % self.pool.len()].0;
-        if j == 0 {
+        if j == 0 && i > 0 {
             v + i as f64
         } else {
-            v
+            v // (a constant term of exactly -0.0 stays possible for the first piece)
         }
     }
     pub fn tag(&self) -> Piecewise<Poly0> {
@@ -157,6 +159,25 @@ pub fn visit_pw<V: PwVisitor>(spec: &PwSpec, v: &mut V) -> V::Out {
             }
             v.visit(&spec.tag(), true)
         }
+        9 => {
+            // tag pieces behind the Log wrapper: Log(Poly0(i)) evaluates to i for EVERY argument (also negative ones)
+            let pw = Piecewise { segments: ends.iter().enumerate().map(|(i, &e)| Segment { end: e, poly: Log(Poly0(i as f64)) }).collect::<Vec<_>>() };
+            v.visit(&pw, true)
+        }
+        10 => {
+            // a negated / negatively scaled polyline: constant terms of exactly -0.0, slopes of either sign
+            if ends.iter().all(|e| e.is_finite()) {
+                let mut knots = vec![Knot::new(ends[0] - ends[0].abs().max(1.0), spec.num(0, 1))];
+                knots.extend(ends.iter().enumerate().map(|(i, &e)| Knot::new(e, if i % 3 == 0 { 0.0 } else { spec.num(i, 0) })));
+                if knots.iter().all(|k| k.x.is_finite() && k.y.is_finite()) {
+                    let neg = spec.pool.first().map_or(true, |b| b.0 >= 0.0);
+                    if let Ok(pw) = crate::runner::lib(|| if neg { -linear(&knots) } else { linear(&knots) * -2.0 }) {
+                        return v.visit(&pw, false);
+                    }
+                }
+            }
+            v.visit(&spec.tag(), true)
+        }
         _ => {
             // &f + &g: f on all ends, g on every other end
             let f = spec.q4();
@@ -170,7 +191,7 @@ pub fn visit_pw<V: PwVisitor>(spec: &PwSpec, v: &mut V) -> V::Out {
 }
 
 pub fn pw_spec(max_len: usize) -> BoxedStrategy<PwSpec> {
-    let kind = prop_oneof![8 => Just(0u8), 1 => Just(1u8), 1 => Just(2u8), 1 => Just(3u8), 1 => Just(4u8), 1 => Just(5u8), 1 => Just(6u8), 1 => Just(7u8), 1 => Just(8u8)];
+    let kind = prop_oneof![8 => Just(0u8), 1 => Just(1u8), 1 => Just(2u8), 1 => Just(3u8), 1 => Just(4u8), 1 => Just(5u8), 1 => Just(6u8), 1 => Just(7u8), 1 => Just(8u8), 2 => Just(9u8), 1 => Just(10u8)];
     let long = (max_len * 5).max(100);
     (kind, any::<bool>(), gen::ends_long(max_len, long, false), gen::ends(max_len, true), vec(gen::moderate(20), 7))
         .prop_map(|(kind, positive, e_any, e_pos, pool)| {
